@@ -208,7 +208,7 @@ var (
 	execC01 = corrExec(oracleC01, ntC01)
 	execC02 = corrExec(oracleC02, ntC02)
 	execC04 = corrExec(oracleC04, ntC04)
-	execC09 = corrExec(oracleFull, ntC09)
+	execC09 = corrExec(oracleC09, ntC09)
 )
 
 func execC16(h history) Outcome {
